@@ -19,7 +19,7 @@ IsEv(e) == l <= Len(Rec) /\ R.ev = e /\ l' = l + 1
 
 TReset ==
   /\ IsEv("reset")
-  /\ IF R.kind = "parser" /\ R.parser \in {"cnf", "wcnf", "gcnf", "log"} /\ ~R.long
+  /\ IF R.kind = "parser" /\ R.parser \in {"cnf", "wcnf", "gcnf", "log"} /\ ~R.long /\ R.pre = 0
        THEN /\ active' = TRUE
             /\ vis' = SubSeq(R.input, 1, R.limit) /\ faulty' = R.faulty /\ kind' = R.parser /\ lit' = R.lit
             /\ ignoreHeader' = R.flag
